@@ -49,19 +49,23 @@ Proof.
   unfold TN, tnodes. destruct (lookup r t) as [[| s es | |]|]; try discriminate. eauto.
 Qed.
 
+Definition TLsum := Lsum tsz bytes (ids r).
+Definition tnch := nchildren tcontrib bytes TN.
+
 Lemma feed_trees_run fuel : forall ts s evs dl,
   TInv dl None s [] -> NoDup ts -> (forall t, In t ts -> ~ dl t) ->
   (forall t, In t ts -> exists ds, TN t = Some ds) ->
+  (2 * (TLsum s + list_sum (map tnch ts)) <= fuel)%nat ->
   match feed_trees fuel r blobs ts s evs with
   | SOk (s', evs') =>
       TRun fuel ts s = Some s' /\
       exists l, log _ _ s' = log _ _ s ++ l /\
                 filter numeric evs' = filter numeric evs ++ map tree_ev (fins tsz bytes l)
-  | SPanic m => m = P_FUEL
+  | SPanic _ => False
   | SErr _ => False
   end.
 Proof.
-  induction ts as [|t ts IH]; intros s evs dl I Hnd Hfresh Hn.
+  induction ts as [|t ts IH]; intros s evs dl I Hnd Hfresh Hn Hfuel.
   - simpl. split; [reflexivity|]. exists []. rewrite !app_nil_r. auto.
   - cbn [feed_trees].
     destruct (done _ _ s t) as [v|] eqn:Hd.
@@ -69,8 +73,16 @@ Proof.
       apply (Hfresh t); [now left|assumption]. }
     destruct (Hn t (or_introl eq_refl)) as (ds & Hds).
     destruct (tnodes_some t ds Hds) as (sz & es & Hl & Hde). rewrite Hl, Hde.
-    destruct (deliver _ _ _ tapply ts_init tcontrib_of fuel t ds s) as [s1|] eqn:Hdel; [|reflexivity].
     destruct (tnodes_wf_node r Hwf blobs t ds Hds) as [Hin Hch].
+    change (map tnch (t :: ts)) with (tnch t :: map tnch ts) in Hfuel.
+    change (list_sum (tnch t :: map tnch ts)) with (tnch t + list_sum (map tnch ts))%nat in Hfuel.
+    assert (Etn : tnch t = length (children tcontrib bytes ds)) by (unfold tnch, nchildren; now rewrite Hds).
+    rewrite Etn in Hfuel.
+    destruct (deliver_terminates tsz tcontrib bytes tapply tapply_comm ts_init tcontrib_of TN (ids r) (ids_nodup r Hwf) TSPEC
+                (fun n es0 H0 => tnodes_spec_eq r Hwf blobs n es0 H0) dl fuel t ds s I (Hfresh t (or_introl eq_refl)) Hin Hds Hch
+                ltac:(unfold TLsum in Hfuel; lia)) as (s1' & Hdel' & HLs).
+    destruct (deliver _ _ _ tapply ts_init tcontrib_of fuel t ds s) as [s1|] eqn:Hdel; [|discriminate].
+    inversion Hdel'; subst s1'.
     assert (I1 : TInv (dl_add dl t) None s1 []).
     { eapply (deliver_inv tsz tcontrib bytes tapply tapply_comm ts_init tcontrib_of TN (ids r) (ids_nodup r Hwf) TSPEC);
         eauto.
@@ -82,7 +94,7 @@ Proof.
                    (dl_add dl t) I1 Hnd').
     assert (Hfresh' : forall t', In t' ts -> ~ dl_add dl t t').
     { intros t' Ht' [Hd'| ->]; [|contradiction]. apply (Hfresh t'); [now right|assumption]. }
-    specialize (IH Hfresh' (fun t' Ht' => Hn t' (or_intror Ht'))).
+    specialize (IH Hfresh' (fun t' Ht' => Hn t' (or_intror Ht')) ltac:(unfold TLsum in *; lia)).
     destruct (feed_trees fuel r blobs ts s1 _) as [[s' evs']|m|m]; try assumption.
     destruct IH as (Hrun & l & Hlog & Hev).
     split.
@@ -162,19 +174,23 @@ Proof.
   - exact IH.
 Qed.
 
+Definition GLsum := Lsum N unit (ids r).
+Definition gnch := nchildren N unit GN.
+
 Lemma feed_tags_run fuel : forall gs s evs dl,
   GInv dl None s [] -> NoDup gs -> (forall t, In t gs -> ~ dl t) ->
   (forall t, In t gs -> exists ds, GN t = Some ds) ->
+  (2 * (GLsum s + list_sum (map gnch gs)) <= fuel)%nat ->
   match feed_tags fuel r gs s evs with
   | SOk (s', evs') =>
       GRun fuel gs s = Some s' /\
       exists l, log _ _ s' = log _ _ s ++ l /\
                 filter numeric evs' = filter numeric evs ++ map tag_ev (fins N unit l)
-  | SPanic m => m = P_FUEL
+  | SPanic _ => False
   | SErr _ => False
   end.
 Proof.
-  induction gs as [|t gs IH]; intros s evs dl I Hnd Hfresh Hn.
+  induction gs as [|t gs IH]; intros s evs dl I Hnd Hfresh Hn Hfuel.
   - simpl. split; [reflexivity|]. exists []. rewrite !app_nil_r. auto.
   - cbn [feed_tags].
     destruct (done _ _ s t) as [v|] eqn:Hd.
@@ -183,8 +199,16 @@ Proof.
     destruct (Hn t (or_introl eq_refl)) as (ds & Hds).
     pose proof Hds as Hds0. unfold GN, gnodes in Hds0.
     destruct (lookup r t) as [[| | |sz tg k]|] eqn:Hl; try discriminate. inversion Hds0 as [Hds1]. rewrite Hds1.
-    destruct (deliver _ _ _ tag_apply 1 tag_contrib fuel t ds s) as [s1|] eqn:Hdel; [|reflexivity].
     destruct (gnodes_wf_node t ds Hds) as [Hin Hch].
+    change (map gnch (t :: gs)) with (gnch t :: map gnch gs) in Hfuel.
+    change (list_sum (gnch t :: map gnch gs)) with (gnch t + list_sum (map gnch gs))%nat in Hfuel.
+    assert (Etn : gnch t = length (children N unit ds)) by (unfold gnch, nchildren; now rewrite Hds).
+    rewrite Etn in Hfuel.
+    destruct (deliver_terminates N N unit tag_apply tag_apply_comm 1 tag_contrib GN (ids r) (ids_nodup r Hwf) GSPEC
+                gnodes_spec_eq dl fuel t ds s I (Hfresh t (or_introl eq_refl)) Hin Hds Hch
+                ltac:(unfold GLsum in Hfuel; lia)) as (s1' & Hdel' & HLs).
+    destruct (deliver _ _ _ tag_apply 1 tag_contrib fuel t ds s) as [s1|] eqn:Hdel; [|discriminate].
+    inversion Hdel'; subst s1'.
     assert (I1 : GInv (dl_add dl t) None s1 []).
     { eapply (deliver_inv N N unit tag_apply tag_apply_comm 1 tag_contrib GN (ids r) (ids_nodup r Hwf) GSPEC); eauto.
       - exact gnodes_spec_eq.
@@ -195,7 +219,7 @@ Proof.
                    (dl_add dl t) I1 Hnd').
     assert (Hfresh' : forall t', In t' gs -> ~ dl_add dl t t').
     { intros t' Ht' [Hd'| ->]; [|contradiction]. apply (Hfresh t'); [now right|assumption]. }
-    specialize (IH Hfresh' (fun t' Ht' => Hn t' (or_intror Ht'))).
+    specialize (IH Hfresh' (fun t' Ht' => Hn t' (or_intror Ht')) ltac:(unfold GLsum in *; lia)).
     destruct (feed_tags fuel r gs s1 _) as [[s' evs']|m|m]; try assumption.
     destruct IH as (Hrun & l & Hlog & Hev).
     split.
